@@ -96,6 +96,8 @@ type TemplateSrc struct {
 	Tree *parse.Tree
 }
 
+var treesMu sync.Mutex
+
 func loadTemplate(c *Ctx, name string) *TemplateSrc {
 	file := filepath.Join(c.Repo, "internal", "mock_"+name+".templ")
 	b, err := os.ReadFile(file)
@@ -108,6 +110,9 @@ func loadTemplate(c *Ctx, name string) *TemplateSrc {
 	if _, err := tr.Parse(string(b), "{{", "}}", trees); err != nil {
 		fatalf("parsing %s: %v", file, err)
 	}
+	treesMu.Lock()
+	templateTrees[name] = trees
+	treesMu.Unlock()
 	t := trees[name]
 	if t == nil || t.Root == nil {
 		fatalf("template %s has no root", file)
